@@ -77,7 +77,15 @@ def gen_fields(rng, names, n):
                 if t == 0:
                     x = rng.choice(reps_of(f, 0, rng)); cl = "zero-repr"
                 elif t == 1:
-                    x = (rng.choice(reps_of(f, 0, rng)) + rng.choice([1, -1])) % (1 << f.bits); cl = "near-zero"
+                    # a representation of zero plus or minus one unit of some limb (any limb width a backend may use): the carry
+                    # propagation inside the test must not lose it
+                    if rng.randrange(3):
+                        W = rng.choice([51, 51, 64, 32, 56, 28, 52])
+                        j = min(f.bits - 1, W * rng.randrange(0, f.bits // W + 1) + rng.choice([0, 0, 0, 1, -1]) if rng.randrange(4) else rng.randrange(f.bits))
+                        d = 1 << max(0, j)
+                    else:
+                        d = 1
+                    x = (rng.choice(reps_of(f, 0, rng)) + rng.choice([d, -d])) % (1 << f.bits); cl = "near-zero"
                 elif t == 2:
                     x = 1 << rng.randrange(f.bits); cl = "one-bit"
                 else:
